@@ -266,6 +266,39 @@ def run(tier):
                     raise ToolError("binding self-test failed: %s record was accepted" % name)
             v.add(binding_selftest="corrupted RecvRet value and removed ModRet event both rejected")
 
+    # ---- 7. what travels through the channel: MetadataUpdate merges (the user-visible half: latest topology, no lost refresh)
+    mcfg = os.path.join(wd, "MC_MetadataUpdate.cfg")
+    with open(mcfg, "w") as f:
+        f.write("SPECIFICATION Spec\nCONSTANTS MaxLen = %d\nINVARIANTS Lemma Emit\nCHECK_DEADLOCK FALSE\n" % (5 if thorough else 4))
+    rm = tlc("MC_MetadataUpdate", mcfg, workers=8, timeout=1800, xmx="8g")
+    if not rm.ok() or not rm.finished:
+        raise ToolError("MetadataUpdate.tla violates its own lemma or failed: %s %s" % (rm.invariant_violated, rm.out[-500:]))
+    seqs = rm.json_prints("SEQ")
+    if len(seqs) < 4000:
+        raise ToolError("too few merge sequences")
+    min_, mout = os.path.join(wd, "merge.in.ndjson"), os.path.join(wd, "merge.out.ndjson")
+    write_ndjson(min_, seqs)
+    run_harness("vh-driver", ["c19", "merge", min_, mout], timeout=1200)
+    mrows = read_ndjson(mout)
+    if len(mrows) != len(seqs):
+        raise ToolError("c19 merge: %d of %d" % (len(mrows), len(seqs)))
+    acc, rr, rej = validate_trace("Trace_MetadataUpdate", "Trace_MetadataUpdate.cfg", mout, timeout=1800)
+    if not acc:
+        raise ToolError("Trace_MetadataUpdate did not consume its input (line %s)" % rej)
+    import re as _re
+    for b in sorted({int(m.group(1)) - 1 for m in _re.finditer(r'<<"BAD", (\d+)>>', rr.out)})[:10]:
+        x = mrows[b]
+        v.violation("metadata updates merged %s: the consumer received %s (the latest fetched topology / every refresh request / the latest hint per node must arrive)" % (
+            [(o["op"], o.get("peers", o.get("n", ""))) for o in x["ops"]], json.dumps(x["taken"])[:400]), [x])
+    v.add(merge_sequences=len(mrows), merge_sequence_max_len=5 if thorough else 4)
+    if not v.violations:
+        bad = json.loads(json.dumps(next(x for x in mrows if any(o["op"] == "topo" for o in x["ops"]) and x["taken"][0]["has_peers"] == 1)))
+        bad["taken"][0]["peers"] = bad["taken"][0]["peers"][:-1] + [9]
+        pth = os.path.join(wd, "self-merge.ndjson")
+        write_ndjson(pth, [bad])
+        if '<<"BAD", 1>>' not in validate_trace("Trace_MetadataUpdate", "Trace_MetadataUpdate.cfg", pth)[1].out:
+            raise ToolError("binding self-test (merge) failed")
+
     v.add(drift=drift, learnt_program_violates_model=model_cex, exhaustive=bool(exhaustive_fine and coarse_exh))
     v.assumptions += [
         "tokio::sync::Notify behaves as the single-waiter model in MergeChannel.tla (every forced run exercises the real Notify)",
